@@ -56,7 +56,51 @@ def build_grammar(g, cls=None):
     for r in g["rules"]:
         if r.get("excl") is not None:
             objs[r["name"]].exclude_rule(cls(r["excl"]))
+    # toggle sequences through the public property; the last value must be the one in force
+    for name, seq in (g.get("toggles") or {}).items():
+        for v in seq:
+            objs[name].first_match_alternation = bool(v)
     return cls, objs
+
+
+def ast_to_sexpr(a, final_flag=None):
+    k = a[0]
+    if k == "lit":
+        return ["lit", 1 if a[1] else 0, [ord(c) for c in a[2]]]
+    if k == "range":
+        return ["range", a[1], a[2]]
+    if k == "alt":
+        fm = a[1] if final_flag is None else final_flag
+        return ["alt", 1 if fm else 0, [ast_to_sexpr(x) for x in a[2]]]
+    if k == "cat":
+        return ["cat", [ast_to_sexpr(x) for x in a[1]]]
+    if k == "rep":
+        return ["rep", a[1], a[2], ast_to_sexpr(a[3])]
+    if k == "opt":
+        return ["opt", ast_to_sexpr(a[1])]
+    if k == "prose":
+        return ["prose"]
+    if k == "ref":
+        return ["ref", a[1].casefold()]
+    raise ValueError(a)
+
+
+def check_graph(g, objs):
+    """the object graph (incl. flags after the toggles) is the one the AST denotes; returns complaints"""
+    bad = []
+    for r in g["rules"]:
+        d = r.get("def")
+        if d is None:
+            continue
+        seq = (g.get("toggles") or {}).get(r["name"])
+        want = ast_to_sexpr(d, final_flag=(seq[-1] if seq and d[0] == "alt" else None))
+        got = sexpr(objs[r["name"]].definition)
+        if want != got:
+            bad.append(f"rule {r['name']}: graph {got} != intended {want}")
+        flag = objs[r["name"]].first_match_alternation
+        if bool(flag) != bool(want[1] if want[0] == "alt" else False):
+            bad.append(f"rule {r['name']}: first_match_alternation reads {flag}")
+    return bad
 
 
 # ---------------------------------------------------------------- dumping the object graph
